@@ -1,4 +1,5 @@
 import Cx.Proofs.Reverse
+import Cx.Proofs.RevSuffixInst
 import Cx.Proofs.Compile
 import Cx.Proofs.Nfa
 /-
@@ -61,5 +62,39 @@ theorem C02_leftmost_start_is_longest_reverse_match {N : NFA} (H : Rev.RevHyp N)
       (Rev.AcceptsA (Rev.reverse N a) (Rev.revB h) (h.size - e) (h.size - s) ∧
         ∀ j, h.size - s < j → j ≤ h.size → ¬ Rev.AcceptsA (Rev.reverse N a) (Rev.revB h) (h.size - e) j) :=
   Rev.leftmost_start_is_longest_reverse H a h hs he
+
+/-! #### a strategy of the meta engine: reverse suffix (`meta/reverse_suffix.go`)
+
+`Cx.RevSuffix` transliterates the candidate loop (prefilter on the suffix literal, bounded reverse scans with the
+anti-quadratic guard, forward search for the span, Pike fallback, the `.*literal` shortcut) over component oracles.  The
+theorems are RELATIVE to the oracles' contracts; the instantiation plugs in the proved models (forward lazy DFA, Pike VM,
+literal-necessity checker) and leaves the reverse DFA search as the contract `RevDfaContract` (its language side is
+`C02_reverse_automaton_language`; the reverse search LOOP of dfa/lazy is not modelled).  The check replays the model
+with brute-force oracles against the real searcher on every generated pattern that selects the strategy. -/
+
+/-- under the component contracts the strategy returns exactly the reference's leftmost-first span, for every haystack and
+    every start offset (whatever the cut-off / give-up behaviour of the reverse scans) -/
+theorem C02_revSuffix_find_eq_reference {N : NFA} {cfg : Dfa.Config} (H : RevSuffix.NfaHyp N cfg) {P : RevSuffix.Params}
+    (hL : 0 < P.suffix.size) (hmz : P.matchStartZero = false) (hlit : Lit.checkSuffix N [P.suffix.toList] = true)
+    (hlb : P.lineBounded = true → ∀ (h : Bytes) s e, s ≤ h.size → Accepts N h s e → ∀ i, s ≤ i → i < e → h.at i ≠ 10)
+    {revL : Bytes → Nat → Nat → Nat → RevSuffix.RevAnswer} {revF : Bytes → Nat → Nat → Option Nat}
+    {h : Bytes} (hb : Dfa.BytesOK h) (C : RevSuffix.RevDfaContract N revL revF h) {at_ : Nat} (hat : at_ ≤ h.size) :
+    RevSuffix.findIndicesAt (RevSuffix.realOracles N cfg P.suffix revL revF) P h at_ = btSearchAt N h at_ :=
+  RevSuffix.C14_revSuffix_find_eq_reference H hL hmz hlit hlb hb C hat
+
+theorem C02_revSuffix_isMatch_iff {N : NFA} {cfg : Dfa.Config} (H : RevSuffix.NfaHyp N cfg) {P : RevSuffix.Params}
+    (hL : 0 < P.suffix.size) (hlit : Lit.checkSuffix N [P.suffix.toList] = true)
+    {revL : Bytes → Nat → Nat → Nat → RevSuffix.RevAnswer} {revF : Bytes → Nat → Nat → Option Nat}
+    {h : Bytes} (hb : Dfa.BytesOK h) (C : RevSuffix.RevDfaContract N revL revF h) :
+    RevSuffix.isMatch (RevSuffix.realOracles N cfg P.suffix revL revF) P h = true ↔ ∃ i j, i ≤ h.size ∧ Accepts N h i j :=
+  RevSuffix.C14_revSuffix_isMatch_iff H hL hlit hb C
+
+/-- the anti-quadratic guard works: the windows of the bounded reverse scans are disjoint, so all reverse scans together
+    read at most 2·(|h| - at) bytes and the prefilter is called at most |h| - at times -/
+theorem C02_revSuffix_linear_reverse_work {O : RevSuffix.Oracles} (P : RevSuffix.Params) (h : Bytes) (at_ : Nat)
+    (hpf : ∀ st p, O.pfFind h st = some p → st ≤ p) (hfw : ∀ a e, O.fwdEnd h a = some e → e ≤ h.size) (hat : at_ ≤ h.size) :
+    (RevSuffix.findIndicesAtT O P h at_).2.revCost ≤ 2 * (h.size - at_) ∧
+    (RevSuffix.findIndicesAtT O P h at_).2.pfCalls ≤ h.size - at_ :=
+  RevSuffix.revCost_le (O := O) (P := P) (h := h) hpf hfw hat
 
 end Cx.C02
